@@ -141,6 +141,15 @@ def blockStep (s : List Name × List Note) : Op → List Name × List Note
     if o ∈ s.1 then (if o = n then s else (addName (removeName s.1 o) n, s.2 ++ [.renamed o n])) else s
   | _ => s
 
+/-- the notification a glyph operation makes the layer post when the layer's names are `gl` (`none`
+when the operation is rejected or changes nothing) -/
+def noteOf (gl : List Name) : Op → Option Note
+  | .newGlyph _ g => some (.added g)
+  | .insertGlyph _ g => some (.added g)
+  | .delGlyph _ g => if g ∈ gl then some (.deleted g) else none
+  | .rename _ o n => if o ∈ gl then (if o = n then none else some (.renamed o n)) else none
+  | _ => none
+
 /-- … and a block of them -/
 def blockRun (s : List Name × List Note) (ops : List Op) : List Name × List Note :=
   ops.foldl blockStep s
@@ -155,6 +164,21 @@ def heldRun (f : Font) (L : String) (block : List Op) : Font :=
 /-- … and inside `layer.disableNotifications()` … `layer.enableNotifications()` -/
 def disabledRun (f : Font) (L : String) (block : List Op) : Font :=
   run f ([.disableLayer L] ++ block ++ [.enableLayer L])
+
+/-- Along the run of a block WITHOUT a hold, every callback got — about the names it asks about — the
+answers `ex` gives (`ex` will be "some layer has a glyph of that name at the end of the block") -/
+def answersAs (ex : Name → Bool) (L : String) : Font → List Op → Bool
+  | _, [] => true
+  | f, op :: ops =>
+    (match noteOf (layerGlyphs f L) op with
+     | some nt => decide (deliverArgs (anyLayerHas (step f op).1) nt = deliverArgs ex nt)
+     | none => true) && answersAs ex L (step f op).1 ops
+
+def AnswersAs (ex : Name → Bool) (L : String) (f : Font) (ops : List Op) : Prop :=
+  answersAs ex L f ops = true
+
+instance (ex : Name → Bool) (L : String) (f : Font) (ops : List Op) : Decidable (AnswersAs ex L f ops) := by
+  unfold AnswersAs; exact inferInstance
 
 /-- every glyph name mentioned by a held notification of some layer -/
 def queuedNames (f : Font) : List Name :=
